@@ -306,4 +306,41 @@ theorem interleaved_resync_counter :
     (Tbl.get (run { Facts.good with resyncRechecks := false } (init conf1) interleaved).alloc 168427522).map (·.uid) = some 2 := by
   refine ⟨⟨by decide, ⟨by decide, by decide, by decide⟩, by decide⟩, by decide⟩
 
+/-! ### what Bind does with each answer to its Binding call -/
+
+/-- Bind queues a release event only when the Binding call answered NotFound (regenerated from the conditions
+    `apierrors.IsNotFound(err1)` around every `p.unreleased <-` in Bind).  The invariant proof covers every answer -
+    ok, NotFound, Conflict (uid precondition, or "already assigned" for a repeated bind), any other error, and a Binding
+    that was applied although an error came back (`Galaxy.Plugin.bindFinish_good_state`, `BindOutcome`). -/
+theorem fact_bind_enqueues_release_only_on_not_found :
+    Generated.Plugin.bindEnqueuesReleaseOnlyOnNotFound = true ∧ facts.bindEnqueuesOnlyOnNotFound = true := by decide
+
+/-- a variant of Bind that treats a Conflict answer like NotFound ("the pod was re-created") -/
+def factsConflictIsGone : Facts := { Facts.good with bindEnqueuesOnlyOnNotFound := false }
+
+/-- the first Binding is applied but its response is lost (the retries are answered "already assigned", Bind returns an
+    error); the scheduler repeats the bind; the queued events are delivered (corpus/C04/repeated-bind.ops) -/
+def repeatedBind : List Move := [
+  .scale .sts "ns1" "a" 1,
+  .createPod "ns1" "a-0" .sts "a" "" 0 [] true,
+  .listerSync true true,
+  .filter "ns1" "a-0" ["n1"] {} 0,
+  .bind "ns1" "a-0" 1 "n1" { pick := some 168427522, answer := .lost } 0 0,
+  .bind "ns1" "a-0" 1 "n1" {} 0 0,
+  .deliver 0 0 0]
+
+def podA1 : Pod := { ns := "ns1", name := "a-0", uid := 1, kind := .sts, app := "a", pool := "", policy := 0, ranges := [], wants := true, phase := .pending, node := "n1", handed := [⟨168427522, 24, 168427521, 0⟩] }
+
+set_option maxRecDepth 100000 in
+/-- With a Bind that also queues the release event on a Conflict answer the statement fails: the pod is alive and bound
+    (the lost Binding WAS applied), the event carries its own uid, so unbind's UID guard lets it pass and the live pod's
+    address is released.  With the current code the same history keeps the address (second conjunct). -/
+theorem repeated_bind_counter :
+    (allAssumed factsConflictIsGone (init conf1) repeatedBind = true ∧
+      LiveBound (run factsConflictIsGone (init conf1) repeatedBind).pods podA1 ∧
+      Tbl.get (run factsConflictIsGone (init conf1) repeatedBind).alloc 168427522 = none) ∧
+    (LiveBound (run facts (init conf1) repeatedBind).pods podA1 ∧
+      (Tbl.get (run facts (init conf1) repeatedBind).alloc 168427522).map (·.uid) = some 1) := by
+  refine ⟨⟨by decide, ⟨by decide, by decide, by decide⟩, by decide⟩, ⟨by decide, by decide, by decide⟩, by decide⟩
+
 end Galaxy.Props.C04
